@@ -405,7 +405,12 @@ func (v *Verifier) applyContractS(st *State, con *Contract, cpkg *types.Package,
 	}
 	// preconditions
 	for _, rq := range con.Requires {
-		g, err := env.evalBool(rq.Expr)
+		penv := *env
+		penv.mode = 2
+		if v.col != nil {
+			penv.mode = 0
+		}
+		g, err := penv.evalBool(rq.Expr)
 		if err != nil {
 			v.errorf("requires %s of %s: %v", rq.Label, what, err)
 			g = tFalse
@@ -464,6 +469,7 @@ func (v *Verifier) applyContractS(st *State, con *Contract, cpkg *types.Package,
 	for _, gu := range con.GhostUpd {
 		v.ghostUpdate(st, &env2, gu, what)
 	}
+	env2.mode = 1
 	for _, en := range con.Ensures {
 		g, err := env2.evalBool(en.Expr)
 		if err != nil {
@@ -582,6 +588,24 @@ func (v *Verifier) havocLoc(st *State, l modLoc, in ssa.Instruction) {
 		}
 		h.write(l.addr, f)
 		v.recordWrite(l.key, l.addr)
+	case "under":
+		for _, k := range sortedKeys(st.heap) {
+			h := st.heap[k]
+			if h.IdxSort != "Ptr" || strings.HasPrefix(k, "g_") {
+				continue
+			}
+			oldArr := h.arrayTerm()
+			nb := v.Y.fresh(v.D, "hund", h.arraySort())
+			p := mk("Ptr", "zz_qp")
+			sel := mk(h.ElSort, "select", nb, p)
+			st.assume(mk("Bool", "forall ((zz_qp Ptr))", withPattern(tImp(tNot(mk("Bool", "zz_under", p, l.base)), tEq(sel, mk(h.ElSort, "select", oldArr, p))), sel)))
+			h.Base = nb
+			h.Writes = nil
+			if v.col != nil {
+				v.col.allKeys[k] = true
+			}
+		}
+		st.underHavoc = append(st.underHavoc, l.base)
 	case "anyelems":
 		h := st.heap[l.key]
 		if h == nil {
@@ -700,6 +724,8 @@ func (v *Verifier) frameCheckLoc(st *State, key string, addr *Term, in ssa.Instr
 			if m.key == key {
 				return
 			}
+		case "under":
+			alts = append(alts, mk("Bool", "zz_under", addr, m.base))
 		case "anyelems":
 			if m.key == key {
 				if addr.Op == "zz_elem" {
@@ -1185,6 +1211,10 @@ func (v *Verifier) havocLoopLocals(st *State, h *ssa.BasicBlock, blocks map[*ssa
 		if phi, ok := in.(*ssa.Phi); ok {
 			t := v.Y.fresh(v.D, "phi_"+phi.Comment, v.sortOf(phi.Type()))
 			v.addTypeFacts(st, t, phi.Type())
+			if phi.Comment == "rangeindex" {
+				// built-in invariant of go/ssa's range-over-slice lowering: the index starts at -1 and only increments
+				st.assume(tCmp(">=", t, intLit(-1)))
+			}
 			f.vals[phi] = t
 		}
 	}
@@ -1208,11 +1238,24 @@ func (v *Verifier) havocLoopLocals(st *State, h *ssa.BasicBlock, blocks map[*ssa
 	}
 }
 
-func (v *Verifier) assumeInvariants(st *State, lc *LoopContract) {
+func (v *Verifier) bindLoopVars(st *State, env *Env, h *ssa.BasicBlock) {
+	f := st.top()
+	for _, in := range h.Instrs {
+		if phi, ok := in.(*ssa.Phi); ok && phi.Comment == "rangeindex" {
+			if t, ok := f.vals[phi]; ok {
+				env.vars["zz_i"] = Val{tAdd(t, intLit(1)), types.Typ[types.Int]}
+			}
+		}
+	}
+}
+
+func (v *Verifier) assumeInvariants(st *State, lc *LoopContract, h *ssa.BasicBlock) {
 	if lc == nil {
 		return
 	}
 	env := v.topEnv(st)
+	env.mode = 1
+	v.bindLoopVars(st, env, h)
 	for _, inv := range lc.Invariants {
 		g, err := env.evalBool(inv.Expr)
 		if err != nil {
@@ -1228,6 +1271,8 @@ func (v *Verifier) checkInvariants(st *State, lc *LoopContract, kind string, h *
 		return
 	}
 	env := v.topEnv(st)
+	env.mode = 2
+	v.bindLoopVars(st, env, h)
 	for _, inv := range lc.Invariants {
 		g, err := env.evalBool(inv.Expr)
 		if err != nil {
@@ -1289,7 +1334,7 @@ func (v *Verifier) loopArrive(st *State, from, h *ssa.BasicBlock) {
 			newMark := v.newCtr
 			v.applyWriteSet(st2, W)
 			v.havocLoopLocals(st2, h, blocks)
-			v.assumeInvariants(st2, lc)
+			v.assumeInvariants(st2, lc, h)
 			col := &collector{header: h, blocks: blocks, depth: len(st2.frames), allKeys: map[string]bool{}, ghosts: map[string]bool{}, symMark: mark, newMark: newMark}
 			v.col = col
 			st2.top().loops[h] = &loopCut{header: h, blocks: blocks}
@@ -1351,7 +1396,7 @@ func (v *Verifier) loopArrive(st *State, from, h *ssa.BasicBlock) {
 	}
 	v.applyWriteSet(st, W)
 	v.havocLoopLocals(st, h, blocks)
-	v.assumeInvariants(st, lc)
+	v.assumeInvariants(st, lc, h)
 	f.loops[h] = &loopCut{header: h, blocks: blocks}
 	v.run(st, h, firstNonPhi(h))
 }
@@ -1406,6 +1451,7 @@ func (v *Verifier) finishPath(st *State, rs []*Term) {
 			env.vars[con.Results[i]] = Val{r, ty}
 		}
 	}
+	env.mode = 2
 	for _, en := range con.Ensures {
 		g, err := env.evalBool(en.Expr)
 		if err != nil {
@@ -1505,7 +1551,7 @@ func (v *Verifier) verifyFunc(fn *ssa.Function, con *Contract, name string) {
 			v.topVars[fv.Name()] = Val{t, fv.Type()}
 		}
 	}
-	env := &Env{v: v, st: st, vars: v.topVars, pkg: cpkg, frame: f}
+	env := &Env{v: v, st: st, vars: v.topVars, pkg: cpkg, frame: f, mode: 1}
 	for _, rq := range append(append([]*Clause{}, con.Requires...), con.Captures...) {
 		g, err := env.evalBool(rq.Expr)
 		if err != nil {
